@@ -15,7 +15,12 @@ def main():
     a = ap.parse_args()
     seed = int(os.environ.get("VERIF_SEED", "0") or 0)
     pid = a.pid.upper()
-    mod = importlib.import_module("harness.checks.%s" % pid.lower())
+    try:
+        mod = importlib.import_module("harness.checks.%s" % pid.lower())
+    except BaseException:
+        traceback.print_exc()
+        print("ERROR property=%s infrastructure failure: the check module does not load" % pid, flush=True)
+        sys.exit(2)
     if a.replay:
         sys.exit(mod.replay(a.replay))
     ctx = Ctx(pid, a.tier, seed)
